@@ -1,6 +1,7 @@
 import NLE.Proofs.LeaseInv
 import NLE.Proofs.OwnInv
 import NLE.Theorems.C03
+import NLE.Gen.Shape
 /-!
 # C02 — at most one leader at a time, and every claim is backed by the record
 
@@ -106,5 +107,11 @@ example : (match run {} demo with | .ok s => s.claims.map (·.inst) == [1] && s.
 
 /-- The model rejects a second claimant (the guard the implementation is checked against). -/
 example : (match run {} (demo ++ [⟨1060, .flag 2 true true 9 2⟩]) with | .ok _ => false | .error _ => true) = true := by decide
+
+/-- Every way a run ends lowers the flag (AST facts): the stop calls do it themselves (C09); when it is the caller's
+    context that ends the run — the heartbeat loop exits, nobody refreshes the record — a goroutine of the run steps
+    down, and `Start` refuses to begin a new run while that step-down is still under way, so a run never inherits
+    a raised flag. -/
+theorem run_end_shape : Gen.ctxCancelStepsDown = true ∧ Gen.startRefusedWhileLeading = true := by decide
 
 end NLE.Theorems.C02
